@@ -4,29 +4,71 @@
 use crate::cal::Cycle;
 use crate::rule::{Class, RuleSpec, Timeline};
 
-#[derive(Clone, PartialEq, Eq, Debug, Hash, PartialOrd, Ord)]
+#[derive(Clone, Copy, PartialEq, Eq, Debug, Hash, PartialOrd, Ord)]
 pub struct MType {
     pub off: i32,
     pub dst: bool,
-    pub name: Option<Vec<u8>>,
+    /// designation bytes (first `len`); len 0 = no designation
+    pub name_buf: [u8; 8],
+    pub len: u8,
 }
 impl MType {
     pub fn new(off: i32, dst: bool, name: Option<&str>) -> MType {
-        MType { off, dst, name: name.map(|s| s.as_bytes().to_vec()) }
+        MType::from_bytes(off, dst, name.map(|s| s.as_bytes()))
+    }
+    pub fn from_bytes(off: i32, dst: bool, name: Option<&[u8]>) -> MType {
+        let mut name_buf = [0u8; 8];
+        let mut len = 0u8;
+        if let Some(n) = name {
+            assert!(n.len() <= 8 && !n.is_empty());
+            name_buf[..n.len()].copy_from_slice(n);
+            len = n.len() as u8;
+        }
+        MType { off, dst, name_buf, len }
+    }
+    pub fn name(&self) -> Option<&[u8]> {
+        if self.len == 0 {
+            None
+        } else {
+            Some(&self.name_buf[..self.len as usize])
+        }
     }
 }
 
 #[derive(Clone, Debug, PartialEq)]
 pub enum MRule {
     Fixed(MType),
-    Alt { spec: RuleSpec, std: MType, dst: MType, class: Class },
+    Alt { spec: RuleSpec, std: MType, dst: MType, class: Class, line: Option<std::sync::Arc<Timeline>> },
 }
 
 impl MRule {
     pub fn alt(cyc: &Cycle, spec: RuleSpec, std: MType, dst: MType) -> MRule {
         let class = Timeline::build(cyc, &spec, 2000, 402).classify();
-        MRule::Alt { spec, std, dst, class }
+        MRule::Alt { spec, std, dst, class, line: None }
     }
+    /// same, with a precomputed table of the start/end instants (a cache of spec.s / spec.e over its window)
+    pub fn alt_with_line(spec: RuleSpec, std: MType, dst: MType, line: std::sync::Arc<Timeline>) -> MRule {
+        let class = line.classify();
+        MRule::Alt { spec, std, dst, class, line: Some(line) }
+    }
+}
+
+/// S(y) / E(y) through the cache when y is inside its window
+pub fn rule_s(cyc: &Cycle, spec: &RuleSpec, line: &Option<std::sync::Arc<Timeline>>, y: i64) -> i64 {
+    if let Some(l) = line {
+        if y >= l.y0 && y < l.y0 + l.years() as i64 {
+            return l.sy(y);
+        }
+    }
+    spec.s(cyc, y)
+}
+pub fn rule_e(cyc: &Cycle, spec: &RuleSpec, line: &Option<std::sync::Arc<Timeline>>, y: i64) -> i64 {
+    if let Some(l) = line {
+        if y >= l.y0 && y < l.y0 + l.years() as i64 {
+            return l.ey(y);
+        }
+    }
+    spec.e(cyc, y)
 }
 
 #[derive(Clone, Debug, PartialEq)]
@@ -113,7 +155,7 @@ impl MZone {
     pub fn rule_type<'a>(&'a self, cyc: &Cycle, u: i64) -> Result<&'a MType, FwdErr> {
         match self.rule.as_ref().unwrap() {
             MRule::Fixed(t) => Ok(t),
-            MRule::Alt { spec, std, dst, class } => {
+            MRule::Alt { spec, std, dst, class, line } => {
                 let (c, _, _, _) = cyc.gmtime(u);
                 if c.year < YEAR_LO || c.year > YEAR_HI {
                     return Err(FwdErr::OutOfRange);
@@ -121,7 +163,7 @@ impl MZone {
                 if c.year < i32::MIN as i64 || c.year > i32::MAX as i64 {
                     return Err(FwdErr::OutOfRange);
                 }
-                if is_dst_direct(cyc, spec, *class, u, c.year) {
+                if is_dst_direct(cyc, spec, line, *class, u, c.year) {
                     Ok(dst)
                 } else {
                     Ok(std)
@@ -177,14 +219,14 @@ impl MZone {
 }
 
 /// C04 definition evaluated directly from the rule (no tables): periods of years year-2..=year+1
-pub fn is_dst_direct(cyc: &Cycle, spec: &RuleSpec, class: Class, u: i64, year: i64) -> bool {
+pub fn is_dst_direct(cyc: &Cycle, spec: &RuleSpec, line: &Option<std::sync::Arc<Timeline>>, class: Class, u: i64, year: i64) -> bool {
     let mut y = year - 2;
     while y <= year + 1 {
-        let s = spec.s(cyc, y);
+        let s = rule_s(cyc, spec, line, y);
         let e = match class {
-            Class::StartFirst | Class::Degenerate => spec.e(cyc, y),
-            Class::EndFirst => spec.e(cyc, y + 1),
-            Class::NonInterleaving => spec.e(cyc, y),
+            Class::StartFirst | Class::Degenerate => rule_e(cyc, spec, line, y),
+            Class::EndFirst => rule_e(cyc, spec, line, y + 1),
+            Class::NonInterleaving => rule_e(cyc, spec, line, y),
         };
         if s <= u && u < e {
             return true;
@@ -232,12 +274,12 @@ impl MZone {
         for (k, &(t, i)) in self.trans.iter().enumerate() {
             if k + 1 < n || self.rule.is_some() {
                 if let Some(u) = self.switch_instant(t) {
-                    v.push(Jump { u, before: self.types[prev_idx].clone(), after: self.types[i].clone() });
+                    v.push(Jump { u, before: self.types[prev_idx], after: self.types[i] });
                 }
             }
             prev_idx = i;
         }
-        if let Some(MRule::Alt { spec, std, dst, class }) = &self.rule {
+        if let Some(MRule::Alt { spec, std, dst, class, line }) = &self.rule {
             let last_u = if n > 0 { self.switch_instant(self.trans[n - 1].0) } else { None };
             let (c, _, _, _) = cyc.gmtime(l);
             let mut ev: Vec<(i64, bool)> = vec![]; // (instant, is_start)
@@ -245,8 +287,8 @@ impl MZone {
                 if y - 1 < i32::MIN as i64 || y + 1 > i32::MAX as i64 {
                     continue;
                 }
-                ev.push((spec.s(cyc, y), true));
-                ev.push((spec.e(cyc, y), false));
+                ev.push((rule_s(cyc, spec, line, y), true));
+                ev.push((rule_e(cyc, spec, line, y), false));
             }
             // order: by instant; at equal instants the rule's own order (start-first: start then end; end-first: end then start)
             let start_first = !matches!(class, Class::EndFirst);
@@ -265,9 +307,9 @@ impl MZone {
                 };
                 if after_table {
                     if is_start {
-                        v.push(Jump { u: t, before: std.clone(), after: dst.clone() });
+                        v.push(Jump { u: t, before: *std, after: *dst });
                     } else {
-                        v.push(Jump { u: t, before: dst.clone(), after: std.clone() });
+                        v.push(Jump { u: t, before: *dst, after: *std });
                     }
                 }
                 k += 1;
@@ -288,7 +330,7 @@ impl MZone {
             };
             if let Ok(t) = self.forward(cyc, u) {
                 if t.off == o {
-                    out.push(Found::Normal { u, ty: t.clone() });
+                    out.push(Found::Normal { u, ty: *t });
                 }
             }
         }
@@ -296,7 +338,7 @@ impl MZone {
             let a = j.before.off as i64;
             let b = j.after.off as i64;
             if b > a && j.u.checked_add(a).map_or(false, |x| x <= l) && j.u.checked_add(b).map_or(false, |x| l < x) {
-                out.push(Found::Skipped { u: j.u, before: j.before.clone(), after: j.after.clone() });
+                out.push(Found::Skipped { u: j.u, before: j.before, after: j.after });
             }
         }
         out.sort_by_key(|f| (f.instant(), matches!(f, Found::Normal { .. })));
